@@ -217,7 +217,15 @@ Qed.
 Lemma coszen_range d lon lat : -1 <= gen_cos_zen d lon lat <= 1.
 Proof.
   unfold gen_cos_zen; cbv zeta.
-  match goal with |- _ <= sin ?a * sin ?b + cos ?a * cos ?b * cos ?h <= _ => apply (dot_range a b h) end.
+  (* a = latitude, b = declination, h = the one cosine argument that is neither: found by shape, then the goal is
+     the dot product modulo ring, however the source orders its factors *)
+  match goal with |- _ <= ?e <= _ =>
+    match e with context [sin ?a] => match e with context [sin ?b] =>
+      lazymatch a with b => fail | _ =>
+        match e with context [cos ?h] =>
+          lazymatch h with a => fail | b => fail | _ =>
+            replace e with (sin a * sin b + cos a * cos b * cos h) by ring; apply (dot_range a b h)
+          end end end end end end.
 Qed.
 
 (* the code clips the cosine to [-1, 1] before arccos / arcsin (np.clip, traced as two
@@ -228,7 +236,11 @@ Lemma zenith_is_acos d lon lat :
 Proof.
   pose proof (coszen_range d lon lat) as [H1 H2].
   set (c := gen_cos_zen d lon lat) in *.
-  unfold gen_sun_zenith_angle; cbv zeta; fold c.
+  unfold gen_sun_zenith_angle; cbv zeta.
+  (* the clipped quantity is the cosine of the zenith angle, however this function spells the dot product *)
+  repeat match goal with |- context [ite_lt 1 ?q 1 ?q] =>
+    lazymatch q with c => fail | _ => replace q with c by (unfold c, gen_cos_zen; cbv zeta; ring) end end.
+  try fold c.
   rewrite ?(ite_lt_false 1 c) by lra. rewrite ?(ite_lt_false c (-1)) by lra.
   reflexivity.
 Qed.
@@ -237,7 +249,11 @@ Lemma alt_is_asin d lon lat : gen_sun_alt d lon lat = asin (gen_cos_zen d lon la
 Proof.
   pose proof (coszen_range d lon lat) as [H1 H2].
   set (c := gen_cos_zen d lon lat) in *.
-  unfold gen_sun_alt; cbv zeta; fold c.
+  unfold gen_sun_alt; cbv zeta.
+  (* the clipped quantity is the cosine of the zenith angle, however this function spells the dot product *)
+  repeat match goal with |- context [ite_lt 1 ?q 1 ?q] =>
+    lazymatch q with c => fail | _ => replace q with c by (unfold c, gen_cos_zen; cbv zeta; ring) end end.
+  try fold c.
   rewrite ?(ite_lt_false 1 c) by lra. rewrite ?(ite_lt_false c (-1)) by lra.
   reflexivity.
 Qed.
